@@ -35,6 +35,8 @@ fn main() {
                 "C16" => run::finish(ops::c16::cases(seed, tier), &driver, &out, seed, tier, ops::c16::RULE, serde_json::json!({})),
                 "C12" => run::finish(ops::c12::cases(seed, tier), &driver, &out, seed, tier, ops::c12::RULE, serde_json::json!({})),
                 "C11" => run::finish(ops::c11::cases(seed, tier), &driver, &out, seed, tier, ops::c11::RULE, serde_json::json!({})),
+                "C06" => run::finish(ops::c06::cases(seed, tier, false), &driver, &out, seed, tier, ops::c06::RULE_SERVER, serde_json::json!({})),
+                "C18" => run::finish(ops::c06::cases(seed, tier, true), &driver, &out, seed, tier, ops::c06::RULE_CLIENT, serde_json::json!({})),
                 "C07" => run::finish(ops::c07::cases(seed, tier), &driver, &out, seed, tier, ops::c07::RULE, serde_json::json!({})),
                 _ => Err(format!("unknown property {}", prop)),
             };
